@@ -18,6 +18,8 @@ from mwlib.parser import styleanalyzer  # noqa: E402
 
 
 P_BUDGET = 4.0            # the unchanged tree needs < 5 ms for 60 counts
+MAX_OVER = 5              # after that many blow-ups the remaining compute_path cases are not run (each costs P_BUDGET)
+_over = [0]
 _work = []
 _orig_sort = styleanalyzer.sort_states          # AttributeError here = the code no longer has the anchored shape (fail-closed)
 
@@ -66,6 +68,8 @@ for line in sys.stdin:
             r["int"] = int_outcome(c["e"])
             r["name"] = name_outcome(c["e"])
             r["out"] = util.resolve_entity(c["e"])
+        elif _over[0] >= MAX_OVER:
+            r["exc"] = "NotRunAfterOverBudget"      # reported as a disagreement; the search harness finds the concrete inputs
         else:
             del _work[:]
             t0 = time.process_time()
@@ -79,6 +83,7 @@ for line in sys.stdin:
             r["path"] = [[s.apocount, int(bool(s.is_bold)), int(bool(s.is_italic))] for s in path]
     except OverBudget:
         r["exc"] = "OverBudget"
+        _over[0] += 1
     except Exception as e:  # noqa: BLE001
         r["exc"] = type(e).__name__
     sys.stdout.write(json.dumps(r) + "\n")
